@@ -1,7 +1,9 @@
 ----------------------------- MODULE MC_Builtins -----------------------------
 EXTENDS Builtins, Json
 VARIABLE done
-Locales == {<<"de", "DE">>, <<"de", "AT">>, <<"de">>, <<"fr", "CA">>, <<"xx", "YY">>, <<"en", "US">>, <<"en", "GB">>, <<"en">>, <<"zh", "Hans", "CN">>, <<>>}
+\* (<<"fra", "DE">>, <<"dex">>: languages whose code merely STARTS like one that has a table)
+Locales == {<<"de", "DE">>, <<"de", "AT">>, <<"de">>, <<"fr", "CA">>, <<"xx", "YY">>, <<"en", "US">>, <<"en", "GB">>, <<"en">>, <<"zh", "Hans", "CN">>, <<>>,
+            <<"fra", "DE">>, <<"dex">>}
 TableNames == {<<"de", "DE">>, <<"de">>, <<"en", "US">>, <<"en">>, <<"fr">>, <<"zh", "Hans">>, <<"zh">>}
 Defaults == {<<"en", "US">>, <<"de", "DE">>, <<"xx">>, <<"zh", "Hans", "CN">>}
 TableSets == SUBSET TableNames
